@@ -1,6 +1,6 @@
 """C01 All VM configurations compute the same hash."""
 import astq
-from rules import a64hsem, aes, argon, cgsize, driver, dsinit, jit, jitcross, portable, rv64, rvhsem, spec, sshash, vmcfg, x86hsem, rtpreserve, aeshw
+from rules import a64hsem, aes, argon, cgsize, driver, dsinit, jit, jitcross, portable, rv64, rvhsem, spec, sshash, vmcfg, x86hsem, rtpreserve, aeshw, x86loop, a64sem, a64dsread, rvdsread
 
 LEVEL = 'other'
 TECHNIQUE = ('exhaustive flag-to-class dispatch check, frozen-table check of every dataset-address composition site, per-engine v1/v2 gate enumeration, abstract interpretation of the hand-written dataset-read fragments, sibling agreement rules of C04 / C08 / C10 / C12'
@@ -22,6 +22,8 @@ CLAIM += (' Hand-written runtime of the vector back-end: the dataset-item routin
 EXPLANATION += ' RVV-RT-PRESERVE, RVV-RT-CONST, RVV-SS-HSEM, RV-MEM-HSEM (rvv).'
 
 TECHNIQUE += '; register-preservation and constant-reload analysis over the disassembly of the hand-written vector runtime'
+
+EXPLANATION += ' X86-LOOPSTORE, A64-/RV-RT-STOREORDER, A64-IMMHELP, A64-/RV-MEM-HSEM, A64-/RV-DSREAD-HSEM, RVV-JIT-VLEN.'
 
 
 def run(ctx, R):
@@ -65,3 +67,11 @@ def run(ctx, R):
     rtpreserve.rule_rv(ctx, R, 'rvv')
     rtpreserve.rule_const(ctx, R, 'rvv')
     aeshw.rule_rvv_jit_vlen(ctx, R)
+    x86loop.rule_loopstore(ctx, R)
+    rtpreserve.rule_store_order(ctx, R, 'a64')
+    rtpreserve.rule_store_order(ctx, R, 'rv64')
+    a64sem.rule_immhelp(ctx, R)
+    a64hsem.rule_mem_hsem(ctx, R)
+    rvhsem.rule_mem_hsem(ctx, R)
+    a64dsread.rule_dsread(ctx, R)
+    rvdsread.rule_dsread(ctx, R)
